@@ -493,7 +493,7 @@ def main(argv):
     c.assumptions = ["bbolt rollback restores the previous content (trusted; observed by the full traversal after every transaction)",
                      "one MutateContext per transaction (re-using a context across transactions is documented misuse)"]
     proof_ok = c.proof_step(FILES, translators=["errflow"])
-    storefam.run_family(c, "c07", 2400, 20000, compare, oracle,
+    storefam.run_family(c, "c07", 1600, 20000, compare, oracle,
                         "seeded histories of 1-7 transactions x 1-5 operations (create, update, delete, DeleteWhere with filter true / field = value, "
                         "link changes) over five schema wirings (C07cr twice in the rotation) (idx, fkc, casc; C07cr = refusing constraints on child stores only, required strings, "
                         "unindexed string list; C07tree = self-referencing cascade) with injected faults: caller error at a random position, failing "
